@@ -131,6 +131,31 @@ def run(ctx):
     fn, g, where = fn_cfg(ctx, BR, "Branch.generate_revision_history", roles={"graph": ("assign", "self.repository.get_graph()")})
     setl = need(where, calling(g, attr="set_last_revision_info", recv="self"), "set_last_revision_info")
     k2_unreachable(ctx, "R4-generate-checks-ancestry", where, g, {"last_rev is not None": True, "graph.is_ancestor(last_rev, revision_id)": False}, setl, "generate_revision_history refuses (DivergedBranches) when the previous tip is not merged into the new one")
+    # ---- R6: only the 'history' aspect of overwrite switches the divergence check off ---------------------------------
+    mod_b = repo.module(BR)
+    n_sites = 0
+    for q_, f_ in mod_b.functions().items():
+        if not q_.startswith("GenericInterBranch."):
+            continue
+        for c in calls_in(f_):
+            if call_attr(c) == "_update_revisions" and call_recv(c) == "self":
+                n_sites += 1
+                ov = [k.value for k in c.keywords if k.arg == "overwrite"] + list(c.args[1:2])
+                ok_ = len(ov) == 1 and (isinstance(ov[0], ast.Constant) and isinstance(ov[0].value, bool) or (isinstance(ov[0], ast.Compare) and len(ov[0].ops) == 1 and isinstance(ov[0].ops[0], ast.In) and isinstance(ov[0].left, ast.Constant) and ov[0].left.value == "history"))
+                ctx.check("R6-overwrite-history-only", f"{BR}:{q_}", ok_, f"{q_} hands _update_revisions overwrite=('history' in <aspects>) (or a literal bool)", construct=norm(c)[:90], message=f"`{norm(c)[:90]}` passes the whole set of overwrite aspects: any non-empty set (e.g. {{'tags'}} from --overwrite-tags) then skips the divergence check and the target tip is replaced on diverged branches")
+    ctx.require(n_sites >= 2, f"{BR}: only {n_sites} _update_revisions call sites found")
+    fur = repo.func(BR, "GenericInterBranch._update_revisions")
+    gur = build_cfg(fur)
+    dv = need(f"{BR}:GenericInterBranch._update_revisions", calling(gur, attr="_check_if_descendant_or_diverged"), "_check_if_descendant_or_diverged(...)")
+    upd = calling(gur, attr="set_last_revision_info") + calling(gur, attr="generate_revision_history") + calling(gur, attr="_set_last_revision_info")
+    r_ = gur.assume({"overwrite": False, "not overwrite": True}).reach([gur.entry], avoid=set(dv), include_src=True)
+    ctx.check("R6-overwrite-history-only", f"{BR}:GenericInterBranch._update_revisions", bool(upd) and not (set(upd) & r_), "without overwrite the tip is updated only after the descendant-or-diverged check", message="_update_revisions can move the tip without the divergence check although overwrite is false")
+    # ---- R7: a push to a bound branch updates the master first (shared with C23-R6) ----------------------------------------
+    fnq, gq, whereq = fn_cfg(ctx, BR, "GenericInterBranch.push", roles={"master_branch": ("assign", "~self\\.target\\.get_master_branch\\(.*\\)"), "master_inter": ("assign", "InterBranch.get(self.source, {master_branch})")})
+    mq = need(whereq, calling(gq, attr="_basic_push", recv="master_inter"), "master_inter._basic_push(...)")
+    bound_local = [i for i in calling(gq, attr="_basic_push", recv="self") if i in gq.reach(calling(gq, attr="get_master_branch"))]
+    ok_, w_ = gq.always_before(mq, bound_local) if bound_local else (False, None)
+    ctx.check("R7-bound-push-master-first", whereq, ok_, "pushing into a bound branch moves the master first: if the master refuses (DivergedBranches) the bound branch's tip is untouched", message="the bound branch's own tip is pushed before its master: when the master rejects the revision as diverged the push fails but the bound tip has already moved", witness=gq.show_path(w_) if w_ else None)
     # R5 siblings: other Branch implementations overriding set_last_revision_info (information)
     sibs = []
     for rel in ("breezy/git/branch.py", "breezy/bzr/remote.py", "breezy/bzr/fullhistory.py", "breezy/git/remote.py"):
@@ -142,6 +167,7 @@ def run(ctx):
 
 
 MUTANTS = [
+    Mutant("push hands the whole aspect set to _update_revisions", BR, "            self._update_revisions(\n                stop_revision, overwrite=(\"history\" in overwrite), graph=graph\n            )\n        if self.source._push_should_merge_tags():", "            self._update_revisions(stop_revision, overwrite=overwrite, graph=graph)\n        if self.source._push_should_merge_tags():", expect="R6-overwrite-history-only"),
     Mutant("classification skipped by a shortcut", BR, "            if not overwrite:\n                if graph is None:\n                    graph = self.target.repository.get_graph()\n                if self.target._check_if_descendant_or_diverged(", "            if not overwrite and stop_revno is None:\n                if graph is None:\n                    graph = self.target.repository.get_graph()\n                if self.target._check_if_descendant_or_diverged(", expect="R1-classified-before-tip-move"),
     Mutant("arguments swapped", BR, "                if self.target._check_if_descendant_or_diverged(\n                    stop_revision, last_rev, graph, self.source\n                ):", "                if self.target._check_if_descendant_or_diverged(\n                    last_rev, stop_revision, graph, self.source\n                ):", expect="R1-classifies-right-pair"),
     Mutant("labels for {a} and {b} swapped", BR, "        if heads == {revision_b}:\n            return \"b_descends_from_a\"", "        if heads == {revision_a}:\n            return \"b_descends_from_a\"", expect="R2-relation-table"),
